@@ -116,16 +116,23 @@ func (srv *Session) consumeSingleCommand(ctx context.Context, reader *buffer.Rea
 	// connections are not blocking a close. The command is admitted while
 	// holding the read lock to ensure that a concurrent close either observes
 	// the command or prevents it from being started.
+	verifPoint(srv.Server, "cmd.rlock")
 	srv.mu.RLock()
+	verifPoint(srv.Server, "cmd.load")
 	if srv.closing.Load() {
+		verifPoint(srv.Server, "cmd.skip")
 		srv.mu.RUnlock()
 		return nil
 	}
 
+	verifPoint(srv.Server, "cmd.add")
 	srv.wg.Add(1)
+	verifPoint(srv.Server, "cmd.runlock")
 	srv.mu.RUnlock()
+	verifPoint(srv.Server, "cmd.start")
 	srv.logger.Debug("<- incoming command", slog.Int("length", length), slog.String("type", t.String()))
 	err = srv.handleCommand(ctx, conn, t, reader, writer)
+	verifPoint(srv.Server, "cmd.done")
 	srv.wg.Done()
 	return err
 }
